@@ -55,3 +55,29 @@
 (define-fun jsonRank ((st Int)) Int (ite (or (= st 2) (= st 5) (= st 7) (= st 15)) 1 0))
 ; states that are saved on the state stack: always the state to return to after a value
 (define-fun jsonRetState ((st Int)) Bool (or (= st 1) (= st 10) (= st 4)))
+
+; ---- string unescaping (RFC 8259 section 7, RFC 3629 for UTF-8, RFC 2781 for surrogate pairs) ----
+; value of one hexadecimal digit, -1 if the byte is none
+(define-fun jsonHexD ((b Int)) Int
+  (ite (and (<= 48 b) (<= b 57)) (- b 48)
+  (ite (and (<= 97 b) (<= b 102)) (- b 87)
+  (ite (and (<= 65 b) (<= b 70)) (- b 55) (- 1)))))
+; code unit of \uXXXX, -1 if one of the four bytes is not a hex digit
+(define-fun jsonHex4 ((b0 Int) (b1 Int) (b2 Int) (b3 Int)) Int
+  (ite (or (< (jsonHexD b0) 0) (< (jsonHexD b1) 0) (< (jsonHexD b2) 0) (< (jsonHexD b3) 0)) (- 1)
+       (+ (* 4096 (jsonHexD b0)) (* 256 (jsonHexD b1)) (* 16 (jsonHexD b2)) (jsonHexD b3))))
+; the character a two-byte escape \e stands for, -1 if \e is not such an escape
+; (the parser also accepts \' -- never present in an RFC 8259 text)
+(define-fun jsonSimpleEsc ((e Int)) Int
+  (ite (or (= e 34) (= e 92) (= e 47) (= e 39)) e
+  (ite (= e 98) 8 (ite (= e 102) 12 (ite (= e 110) 10 (ite (= e 114) 13 (ite (= e 116) 9 (- 1))))))))
+(define-fun jsonIsSurr ((r Int)) Bool (and (<= 55296 r) (< r 57344)))
+(define-fun jsonIsPair ((hi Int) (lo Int)) Bool (and (<= 55296 hi) (< hi 56320) (<= 56320 lo) (< lo 57344)))
+(define-fun jsonPair ((hi Int) (lo Int)) Int (+ 65536 (* 1024 (- hi 55296)) (- lo 56320)))
+; UTF-8 of a Unicode scalar value r: length and k-th byte
+(define-fun jsonRuneLen ((r Int)) Int (ite (< r 128) 1 (ite (< r 2048) 2 (ite (< r 65536) 3 4))))
+(define-fun jsonUtf8Byte ((r Int) (k Int)) Int
+  (ite (< r 128) r
+  (ite (< r 2048) (ite (= k 0) (+ 192 (div r 64)) (+ 128 (mod r 64)))
+  (ite (< r 65536) (ite (= k 0) (+ 224 (div r 4096)) (ite (= k 1) (+ 128 (mod (div r 64) 64)) (+ 128 (mod r 64))))
+       (ite (= k 0) (+ 240 (div r 262144)) (ite (= k 1) (+ 128 (mod (div r 4096) 64)) (ite (= k 2) (+ 128 (mod (div r 64) 64)) (+ 128 (mod r 64)))))))))
